@@ -63,10 +63,13 @@ extern wv_FILE *stdout, *stderr, *stdin;
 #define fclose wv_fclose
 #define fopen wv_fopen
 #define fflush wv_fflush
+#define ftell wv_ftell
+#define rewind(f) ((void)wv_fseek((f), 0, SEEK_SET))
 size_t wv_fread(void *p, size_t sz, size_t n, wv_FILE *f);
 size_t wv_fwrite(const void *p, size_t sz, size_t n, wv_FILE *f);
 int wv_fseek(wv_FILE *f, long off, int whence);
 int wv_feof(wv_FILE *f);
+long wv_ftell(wv_FILE *f);
 int wv_fgetc(wv_FILE *f);
 int wv_ungetc(int c, wv_FILE *f);
 int wv_fclose(wv_FILE *f);
@@ -121,9 +124,11 @@ void wv_cv_notify_one(wv_cv *cv);
 /* R13 std::thread as a ghost record: which function a thread object was started with and with which arguments; join requires a
    started, not yet joined thread (std::thread::join on anything else throws).  What the thread does while it runs is the rely of the
    thread-modular contracts (pipeline.h), not modelled here. */
+extern unsigned wv_worker_mask;   /* ghost, wv_ghost.h */
 static inline void wv_thread_spawn_multiruncrypt_file(wv_thread *t, unsigned char id, void *mode)
 {
   t->started = 1; t->joined = 0; t->fn = 1; t->arg = id; t->obj = mode;
+  if (id < 16) wv_worker_mask |= 1u << id;
 }
 static inline void wv_thread_join(wv_thread *t)
 {
